@@ -12,5 +12,9 @@ Scripts == UNION { [1..n -> OpSet] : n \in 1..MaxLen }
 Order == CHOOSE f \in [Procs -> 1..Cardinality(Procs)] : \A p, q \in Procs : p # q => f[p] # f[q]
 Sorted(a) == \A p, q \in Procs : Order[p] < Order[q] => Code(a[p]) <= Code(a[q])
 HasClose(a) == \E p \in Procs : \E i \in 1..Len(a[p]) : a[p][i] = "close"
+(* refinement of the four-variable core (LifecycleCore.tla) *)
+Core == INSTANCE LifecycleCore WITH Execs <- Procs \X (1..(MaxLen + 1)),
+                                    aAdm <- admitted, aClosed <- closed, aCbs <- cbs, aDone <- done
+RefinesCore == Core!CSpec
 MCScripts == { a \in [Procs -> Scripts] : Sorted(a) /\ (NeedClose => HasClose(a)) }
 =============================================================================
